@@ -4,6 +4,7 @@ import vlib, os
 
 # invalid fragments; "stmt" fragments stand where a statement may stand, "expr" where an expression may
 INVALID_STMT = [
+    "return 1;\x00 garbage(((", "x = 1;\x00", "x = 1; \x00 y = 2;",
     'x = "unterminated;', "x = 'unterminated;", "x = /unterminated;", "if (a) { x = 1;", "while (a) { x = 1;",
     "foreach v in [1] { x = v;", "function q(a, b { return a; }", "function q(a, b", "switch (a) { case 1 { x = 1; }",
     "switch (a) { case 1 { x = 1; ", "x = 1 + ;", "x = * 2;", "x = (1 + 2;", "x = [1, 2;", 'x = {"a": 1;', 'x = {"a" 1};',
